@@ -453,3 +453,237 @@ ASSUMPTIONS = [
     "tensors held in the cache or in a REF fork are not mutated in place by callers (documented contract of StateForkType.REF)",
 ]
 NOT_DECIDED = []
+
+
+# ------------------------------------------------------------------------------------------------
+# partial revert: the arithmetic of the blend, on real tensors of any size (keys of the cache concrete)
+from pyvc import num as _num
+
+
+class RevertPartial(Spec):
+    """revert(mask): for every forked entry, rows with mask set hold exactly the pre-assignment value and the
+    other rows exactly the current value -- also when a value is huge, infinite or NaN (IEEE configuration);
+    an entry that is None on either side becomes None; entries outside the fork are untouched."""
+    target = STATE + ".revert"
+
+    def configs(self):
+        return [dict(dom="real", mask="bool"), dict(dom="real", mask="float"), dict(dom="fp32", mask="bool")]
+
+    def setup(self, cx, cfg):
+        from leaspy.variables.state import State, StateForkType
+        from leaspy.utils.weighted_tensor import WeightedTensor
+        n, k, f = z3.Ints("n_ind k f")
+        dt = "real" if cfg["dom"] == "real" else cfg["dom"]
+
+        def T(name, shape):
+            return STensor.sym(cx, name, shape, dt)
+        w = STensor.sym(cx, "w_weight", (n, k), "real")
+        old = {"x": T("old_x", (n,)), "y": T("old_y", (n, k)), "z": T("old_z", (n, k, f)),
+               "w": SymObj(WeightedTensor, dict(value=T("old_w", (n, k)), weight=w)),
+               "u": None, "v": T("old_v", (n,))}
+        cur = {"x": T("cur_x", (n,)), "y": T("cur_y", (n, k)), "z": T("cur_z", (n, k, f)),
+               "w": SymObj(WeightedTensor, dict(value=T("cur_w", (n, k)), weight=w)),
+               "u": T("cur_u", (n,)), "v": None, "q": T("cur_q", (n,))}
+        if cfg["mask"] == "bool":
+            mask = STensor.sym(cx, "mask", (n,), "bool")
+        else:
+            mask = STensor.sym(cx, "maskf", (n,), "real")
+        s = SymObj(State, dict(dag=None, auto_fork_type=StateForkType.REF, _values=dict(cur), _last_fork=dict(old),
+                               _tracked_variables=set()))
+        return dict(args=(s, mask), self=s, old=old, cur=cur, mask=mask, dims=(n, k, f))
+
+    def pre(self, cx, st):
+        n, k, f = st["dims"]
+        p = [("sizes", z3.And(n >= 0, k >= 0, f >= 0))]
+        wt = st["old"]["w"].f["weight"]
+        i, j = z3.Ints("i_w j_w")
+        p.append(("weights are non-negative", z3.ForAll([i, j], wt.fn((i, j)) >= 0)))
+        if st["cfg"]["mask"] == "float":
+            m = st["mask"]
+            p.append(("float mask holds 0/1 flags", z3.ForAll([i], z3.Or(m.fn((i,)) == 0, m.fn((i,)) == 1))))
+        return p
+
+    def post(self, cx, st, out):
+        s, old, cur, mask = st["self"], st["old"], st["cur"], st["mask"]
+        vals = s.f["_values"]
+        res = [("fork consumed", z3.BoolVal(s.f["_last_fork"] is None)),
+               ("None on either side gives None", z3.BoolVal(vals.get("u", 0) is None and vals.get("v", 0) is None)),
+               ("entries outside the fork untouched", z3.BoolVal(vals.get("q") is cur["q"]))]
+        n = st["dims"][0]
+
+        def mk(i):
+            e = mask.fn((i,))
+            return e if mask.dtype == "bool" else e != 0
+        for key in ("x", "y", "z", "w"):
+            nv = vals.get(key)
+            o, c = old[key], cur[key]
+            if isinstance(o, SymObj):
+                ok = isinstance(nv, SymObj) and isinstance(nv.f.get("value"), STensor)
+                res.append((f"{key}: still a weighted tensor", z3.BoolVal(ok)))
+                if not ok:
+                    continue
+                wt_ok = nv.f["weight"] is not None
+                res.append((f"{key}: weight kept", z3.BoolVal(wt_ok)))
+                nv_t, o_t, c_t = nv.f["value"], o.f["value"], c.f["value"]
+                if wt_ok:
+                    idx = o_t.fresh_idx(cx, "e")
+                    res.append((f"{key}: weight unchanged entry-wise", z3.ForAll(list(idx), z3.Implies(
+                        o_t.in_range(idx), nv.f["weight"].fn(idx) == o.f["weight"].fn(idx)))))
+            else:
+                ok = isinstance(nv, STensor)
+                res.append((f"{key}: still a tensor", z3.BoolVal(ok)))
+                if not ok:
+                    continue
+                nv_t, o_t, c_t = nv, o, c
+            same_rank = nv_t.ndim == o_t.ndim
+            res.append((f"{key}: rank kept", z3.BoolVal(same_rank)))
+            if not same_rank:
+                continue
+            idx = o_t.fresh_idx(cx, "e")
+            want = z3.If(mk(idx[0]), o_t.fn(idx), c_t.fn(idx))
+            res.append((f"{key}: reverted rows hold exactly the old value, kept rows exactly the current value",
+                        z3.ForAll(list(idx), z3.Implies(o_t.in_range(idx), _num.same(nv_t.fn(idx), want)))))
+        return res
+
+
+UNITS.append(RevertPartial())
+
+
+# ------------------------------------------------------------------------------------------------
+def LEMMAS():
+    """partial revert keeps the cache consistent: with I' = the view whose reverted rows come from the
+    pre-assignment view and whose kept rows from the current one, the blended cache satisfies the class
+    invariant for I' -- given row-locality of derived values (C07) and the documented precondition that
+    only variables carrying the individual axis were read since the assignment."""
+    R = row_axioms()
+    ax = axioms()
+    I0, I1, I2 = z3.Consts("I0 I1 I2", View)
+    C1, Fk, C2 = z3.Consts("C1 Fk C2", View)
+    x, m, mm = z3.Consts("x m mm", Name)
+    ii, rr = z3.Ints("ii rr")
+
+    def infork(q):
+        return z3.Or(q == x, anc(x, q))
+    setup = [
+        indag(x), settable(x), indiv(x),
+        z3.ForAll([m], z3.Implies(m != x, I0[m] == I1[m])),
+        # inv(C1, I1) and consistency of the fork with the old view (postconditions of __setitem__/__getitem__)
+        z3.ForAll([m], z3.Implies(indag(m), z3.And(
+            z3.Implies(indep(m), C1[m] == I1[m]),
+            z3.Implies(z3.And(z3.Not(indep(m)), C1[m] != NONE), C1[m] == Sem(m, I1))))),
+        z3.ForAll([m], z3.Implies(z3.And(indag(m), infork(m)), z3.And(
+            z3.Implies(indep(m), Fk[m] == I0[m]),
+            z3.Implies(z3.And(z3.Not(indep(m)), Fk[m] != NONE), Fk[m] == Sem(m, I0))))),
+        # documented precondition of a partial revert
+        z3.ForAll([m], z3.Implies(z3.And(infork(m), C1[m] != NONE, Fk[m] != NONE), indiv(m))),
+        # effect of revert(mask) on the cache (postcondition of the unit RevertPartial, per forked entry)
+        z3.ForAll([m], C2[m] == z3.If(z3.And(indag(m), infork(m)),
+                                      z3.If(z3.Or(Fk[m] == NONE, C1[m] == NONE), NONE, Blend(Fk[m], C1[m])), C1[m])),
+        I2 == z3.Store(I1, x, z3.If(z3.Or(I0[x] == NONE, I1[x] == NONE), NONE, Blend(I0[x], I1[x]))),
+    ]
+    o, c = Fk[mm], C1[mm]
+    case = [indag(mm), z3.Not(indep(mm)), infork(mm), o != NONE, c != NONE]
+    base = ax + list(R.values()) + setup
+    x_set = z3.And(I0[x] != NONE, I1[x] != NONE)
+    A = z3.Implies(rowmask(ii), agree_row(I2, I0, mm, ii))
+    Bk = z3.Implies(z3.Not(rowmask(ii)), agree_row(I2, I1, mm, ii))
+    Cdef = Sem(mm, I2) != NONE
+    D = elem(Sem(mm, I2), ii, rr) == elem(Blend(o, c), ii, rr)
+    Dall = z3.ForAll([ii, rr], D)
+    E = Sem(mm, I2) == Blend(o, c)
+    P = "partial revert lemma: "
+    return [
+        (P + "independent entries equal the blended view", base, z3.Implies(z3.And(indag(mm), indep(mm)), C2[mm] == I2[mm])),
+        (P + "derived entries outside the fork stay consistent", base,
+         z3.Implies(z3.And(indag(mm), z3.Not(indep(mm)), z3.Not(infork(mm)), C2[mm] != NONE), C2[mm] == Sem(mm, I2))),
+        (P + "a forked derived entry with both sides present: the assigned variable was set on both sides", base + case, x_set),
+        (P + "reverted rows see the pre-assignment view", base + case + [x_set], A),
+        (P + "kept rows see the current view", base + case + [x_set], Bk),
+        (P + "the blended derived value is defined", base + case + [x_set], Cdef),
+        (P + "entry-wise equality with the from-scratch value", base + case + [x_set, A, Bk, indiv(mm), o == Sem(mm, I0), c == Sem(mm, I1)], D),
+        (P + "hence equality (extensionality)", [R["extensionality"], R["select_not_none"], o != NONE, c != NONE, Cdef, Dall], E),
+        (P + "forked derived entries are consistent with the blended view", base + case + [E], C2[mm] == Sem(mm, I2)),
+    ]
+
+
+# ------------------------------------------------------------------------------------------------
+class Put(StateSpec):
+    """put(n, v, indices, accumulate): the view becomes I[n := v], I[n := I[n] + v] or
+    I[n := index_put(I[n], indices, v, accumulate)] -- computed out of place -- through __setitem__, so every
+    dependent is reset; refused (input error) for unknown / non-settable n or when the current value is needed and unset."""
+    target = STATE + ".put"
+
+    def configs(self):
+        return [dict(nidx=k, acc=a) for k in (0, 1, 2) for a in (False, True)]
+
+    def setup(self, cx, cfg):
+        s = make_state(cx, "ref")
+        n, v = name_sv("name"), val_sv("v")
+        I = z3.Const("I", View)
+        cx.ghost["I"] = I
+        idx = tuple(cx.int(f"i{k}") for k in range(cfg["nidx"]))
+        return dict(args=(s, n, v), kwargs=dict(indices=idx, accumulate=cfg["acc"]), self=s, n=n, v=v, I=I, idx=idx)
+
+    def pre(self, cx, st):
+        return [("inv", inv(st["self"].f["_values"], st["I"])), ("a value", st["v"].e != NONE)]
+
+    def snap(self, cx, st):
+        st["old"] = st["self"].f["_values"].snapshot()
+
+    def needs_current(self, st):
+        return st["cfg"]["nidx"] > 0 or st["cfg"]["acc"]
+
+    def raises(self, cx, st):
+        n, I = st["n"].e, st["I"]
+        bad = z3.Or(z3.Not(indag(n)), z3.Not(settable(n)))
+        if self.needs_current(st):
+            bad = z3.Or(bad, Sem(n, I) == NONE)
+        return [(InputErr(), bad)]
+
+    def post(self, cx, st, out):
+        s, cfg = st["self"], st["cfg"]
+        vals, old, n, I, v = s.f["_values"], st["old"], st["n"].e, st["I"], st["v"].e
+        m = z3.Const("m_post", Name)
+        if cfg["nidx"] == 0:
+            newv = vadd(I[n], v) if cfg["acc"] else v
+        else:
+            ix = [z(i) for i in st["idx"]] + [z3.IntVal(-1)] * (2 - cfg["nidx"])
+            newv = vindex_put(I[n], z3.IntVal(cfg["nidx"]), ix[0], ix[1], v, z3.BoolVal(cfg["acc"]))
+        I2 = z3.Store(I, n, newv)
+        return [("new value of n (out of place), dependents reset, other independent values untouched, "
+                 "cached entries elsewhere kept (a read may only have filled empty ones)",
+                 z3.ForAll([m], z3.And(
+                     vals.has(m) == old.has(m),
+                     z3.Implies(m == n, vals.at(m) == newv),
+                     z3.Implies(anc(n, m), vals.at(m) == NONE),
+                     z3.Implies(z3.And(m != n, z3.Not(anc(n, m)), z3.Or(indep(m), old.at(m) != NONE)), vals.at(m) == old.at(m))))),
+                ("inv holds for the new view", inv(vals, I2))]
+
+
+class ToCache(Spec):
+    """StateForkType.to_cache: REF keeps the very same dict, COPY returns an equal dict that is a different object."""
+    target = "leaspy.variables.state:StateForkType.to_cache"
+
+    def configs(self):
+        return [dict(kind="ref"), dict(kind="copy")]
+
+    def background(self, cx):
+        return []
+
+    def setup(self, cx, cfg):
+        d = SMap(cx, NAME, VAL, "d")
+        return dict(args=(fork_types()[cfg["kind"]], d), d=d)
+
+    def post(self, cx, st, out):
+        r, d = out.value, st["d"]
+        m = z3.Const("m_post", Name)
+        ok = isinstance(r, SMap)
+        res = [("a dict", z3.BoolVal(ok))]
+        if ok:
+            res.append(("same keys and values", z3.ForAll([m], z3.And(r.has(m) == d.has(m), z3.Implies(d.has(m), r.at(m) == d.at(m))))))
+            res.append(("REF shares, COPY does not", z3.BoolVal((r is d) == (st["cfg"]["kind"] == "ref"))))
+        return res
+
+
+UNITS += [Put(), AutoFork(), ToCache()]
+CALLEES += []
